@@ -626,6 +626,38 @@ def c11(rng, count):
             continue        # option text that renders to LF is not neutral under the exchange
         out.append(Case(argv, data, tags={"grp": g, "role": "lf"}))
         out.append(Case(argv + ["-z"], data.translate(sw), tags={"grp": g, "role": "nul"}))
+        if kind == "stream" and data:
+            # the same pair through the library under one random segmentation, so that the skip to the
+            # end of a record, a field and a terminator all get split across reads
+            g += 1
+            seg, left = [], len(data)
+            while left > 0:
+                k = rng.randint(1, min(left, rng.choice([1, 2, 3, 5])))
+                seg.append(k); left -= k
+            out.append(Case(argv, data, entry="stream", seg=seg, tags={"grp": g, "role": "lf"}))
+            out.append(Case(argv + ["-z"], data.translate(sw), entry="stream", seg=seg, tags={"grp": g, "role": "nul"}))
+    return out
+
+
+def c11_big(rng):
+    """the exchange on inputs larger than the 64 KiB buffers: a long record (LF, NUL and CR inside as ordinary
+    bytes of the other mode) followed by short ones; decided by the oracle on the implementation"""
+    sw = bytes.maketrans(b"\n\0", b"\0\n")
+    out = []
+    g = 2 * 10 ** 6
+    long_tail = b"k-v-" + (b"ab\0cd\r-" * 9000) + b"end"          # > 64 KiB, NUL and CR inside, no LF
+    inputs = [long_tail + b"\n" + b"c-d\0x-e\n" + b"f-g-h\n",
+              b"s-t\n" + long_tail + b"\n" + b"\n" + b"u-v-w",
+              (b"p-q-r\0-z\n") * 9000]
+    plans = [["-M", "1", "-d", "-", "-f", "1"], ["-M", "1", "-d", "-", "-f", "2"], ["-M", "1", "-d", "-", "-f", "1,2", "-j"],
+             ["-M", "1", "-d", "-", "-f", "2:"], ["-d", "-", "-f", "2"], ["-d", "-", "-f", "-1", "-g"], ["-d", "-", "-f", "1,3=F", "-p"],
+             ["-l", "2"], ["-l", "-1"], ["-l", "1,3", "--no-join"], ["-c", "1:3"]]
+    for data in inputs:
+        for argv in plans:
+            g += 1
+            t = {"grp": g, "nomodel": True}
+            out.append(Case(argv, data, tags=dict(t, role="lf")))
+            out.append(Case(argv + ["-z"], data.translate(sw), tags=dict(t, role="nul")))
     return out
 
 
